@@ -35,9 +35,34 @@ def gen_case(rng, frontend=None):
     ignore = rng.random() < 0.5
     bcast = rng.random() < 0.5 and fe not in ('twistedTcp', 'twistedUdp')
     hosted = [u for u, _ in units]
+    twins = (not single) and len(units) > 1 and rng.random() < 0.35
+    if twins:
+        # every unit gets an equal (but separate) small table: whole-table writes, e.g. by broadcast, must not make the
+        # units share storage
+        ncell = rng.choice([4, 8, 16, 40])
+        base = {'blocks': [{'kind': 'seq', 'address': rng.choice([0, 1, 10]), 'values': [0] * ncell}], 'd': 0, 'c': 0, 'i': 0, 'h': 0,
+                'zero': rng.random() < 0.5}
+        units = [[u, {'blocks': [dict(b, values=list(b['values'])) for b in base['blocks']], 'd': 0, 'c': 0, 'i': 0, 'h': 0, 'zero': base['zero']}]
+                 for u, _ in units]
+        if rng.random() < 0.7 and fe not in ('twistedTcp', 'twistedUdp'):
+            bcast = True
     n = rng.choice([1, 2, 5, 12, 25])
     steps = []
-    for _ in range(n):
+    for k in range(n):
+        if twins and k < 2 and rng.random() < 0.7:
+            lay = units[0][1]
+            lo, hi = execlib.table_window(lay, 'h')
+            a = lo - (0 if lay['zero'] else 1)
+            cnt = hi - lo + 1
+            if 0 <= a <= 65535 and 1 <= cnt <= 123:
+                vals = [rng.randrange(65536) for _ in range(cnt)]
+                raw = [b for v in vals for b in (v >> 8, v & 255)]
+                r = {'t': 'writeRegisters', 'address': a, 'count': cnt, 'byte_count': 2 * cnt, 'values': vals, 'raw': raw}
+                uid = 0 if bcast else rng.choice(hosted)
+                f = serverlib.frame_request(framer, r, uid, rng.randrange(65536))
+                if not (framer == 'binary' and any(b in (0x7B, 0x7D) for b in f[1:-1])):
+                    steps.append({'uid': uid, 'req': r, 'frame': f})
+                    continue
         others = [u for u in range(256) if u not in hosted]
         uid = rng.choice(hosted + hosted + [0, 0, 255, rng.choice(others), rng.randrange(256)])
         layout = dict(units)[uid] if uid in dict(units) else rng.choice(units)[1]
